@@ -112,6 +112,14 @@ var c17Seeds = []string{
 	// parameters outside [0,1] over series that do have several samples (one series through the grouping)
 	`quantile_over_time(1.5, {job="j"} | unwrap v [1m]) by (job)`, `quantile_over_time(7, {job="j"} | unwrap v [1m]) by ()`, `quantile_over_time(2, {job="j"} | unwrap status [1m]) without (app, status, dur, size, addr, v, msg)`,
 	`quantile_over_time(1.0000001, {job="j"} | logfmt | unwrap v [1m]) by (job)`, `sum(quantile_over_time(99, {job="j"} | unwrap bytes(size) [1m]) by (job))`, `count_over_time({job="j"}[9223372036s])`, `count_over_time({job="j"}[1ns] offset 9223372036s)`,
+	// template functions that scan their input, with patterns that match the empty string and odd counts / widths
+	"{job=\"j\"} | line_format `{{ count \"e*\" __line__ }} {{ count \"\" __line__ }} {{ count \".*\" .app }} {{ count \"x?\" __line__ }} {{ count \"(a|)\" __line__ }} {{ count \"\\\\b\" __line__ }} {{ count \"^\" __line__ }} {{ count \"$\" __line__ }}`",
+	"{job=\"j\"} | label_format n=`{{ count \"[0-9]*\" __line__ }}`, m=`{{ regexReplaceAll \"\" __line__ \"-\" }}{{ regexReplaceAll \"x*\" .app \"$0$0\" }}{{ regexReplaceAllLiteral \"\\\\b\" __line__ \"|\" }}{{ regexReplaceAll \"(?:)\" .app \"${1}\" }}`",
+	"{job=\"j\"} | line_format `{{ alignLeft 0 __line__ }}{{ alignRight -5 __line__ }}{{ alignLeft 1000000 .app }}{{ alignRight 3 \"\\xff\\xfe\" }}`",
+	"{job=\"j\"} | line_format `{{ Replace __line__ \"\" \"x\" -1 }}{{ Replace __line__ \"\" \"\" 5 }}{{ Trim __line__ \"\" }}{{ TrimLeft .app \"\" }}{{ TrimPrefix __line__ __line__ }}`",
+	"{job=\"j\"} | line_format `{{ __line__ | urlencode | urldecode }}{{ urldecode \"%\" }}{{ urldecode \"%zz%\" }}{{ \"9223372036854775807\" | unixToTime }}{{ \"-1\" | unixToTime }}{{ unixToTime \"17000000000000000000\" }}`",
+	"{job=\"j\"} | line_format `{{ __timestamp__ | unixEpochMillis }}{{ __timestamp__ | unixEpochNanos }}{{ toDateInZone \"2006-01-02\" \"Nowhere/None\" .v }}{{ toDateInZone \"\" \"\" \"\" }}`",
+	"sum_over_time({job=\"j\"} | label_format n=`{{ count \"a*\" __line__ }}` | unwrap n [5s])",
 	`{job="j"} # comment`, "{job=\"j\"}\n|= `raw`\n| json", `{job="j"} |= "\x00\xff"`, `{job="j"} |~ "(a|b)*c{1,3}[[:alpha:]]\\pL"`,
 }
 
